@@ -240,3 +240,164 @@ Definition suffix_table : list (str * str) :=
    ([46; 99; 115; 118], [99; 115; 118]);                                                      (* .csv csv *)
    ([46; 100; 97; 116], [102; 105; 109; 105]);                                                (* .dat fimi *)
    ([46; 112; 121], [112; 121; 116; 104; 111; 110; 45; 108; 105; 116; 101; 114; 97; 108])].   (* .py python-literal *)
+
+(* ------------------------------------------------------------------------------------------- *)
+(** * writers written from the format descriptions
+
+    They are deliberately more liberal than the library's dumpers: every freedom the descriptions above leave
+    (padding, final '|', comments, blank lines; padding and trailing white space for cxt; quoting choices
+    and the final CRLF for csv) is a parameter.  They share only [join] and [nat_to_str] (the decimal
+    notation of a count) with Model/Formats.v.  Proofs/FormatsWriters.v shows that the library's loaders
+    read their output back for all values of the parameters. *)
+
+Definition spaces (n : nat) : str := repeat 32 n.
+
+(** [s] with [l] spaces before and [r] spaces after *)
+Definition pad_sp (l r : nat) (s : str) : str := spaces l ++ s ++ spaces r.
+
+(** text without a line feed *)
+Definition no_newline (s : str) : bool := forallb (fun c => negb (c =? 10)) s.
+
+(** ** table *)
+
+(** the freedoms of the table layout.  Lines are numbered from 0 (the header line), columns from 0 (the
+    column of the object names).
+    - [ts_lpad i j] / [ts_rpad i j]: number of spaces before / after the content of column [j] of line [i]
+      (for the header, column 0 has no content: its width is [ts_lpad 0 0 + ts_rpad 0 0]);
+    - [ts_bar i]: line [i] ends with a final '|';
+    - [ts_trail i]: number of spaces after that (before the comment or the end of the line);
+    - [ts_comment i]: the comment after line [i], if any (the text after '#');
+    - [ts_fill i]: the blank / comment-only lines before line [i] (after the last line when [i] is the number
+      of lines): each is a number of spaces and an optional comment.  A final [(0, None)] filler after the
+      last line is a final line feed. *)
+Record table_style := {
+  ts_lpad : nat -> nat -> nat;
+  ts_rpad : nat -> nat -> nat;
+  ts_bar : nat -> bool;
+  ts_trail : nat -> nat;
+  ts_comment : nat -> option str;
+  ts_fill : nat -> list (nat * option str) }.
+
+Definition mark_X (b : bool) : str := if b then [88] else [].
+
+Definition comment_text (c : option str) : str := match c with Some t => 35 :: t | None => [] end.
+
+Definition filler_line (f : nat * option str) : str := spaces (fst f) ++ comment_text (snd f).
+
+(** the columns [j], [j+1], ... : each is '|' followed by the padded content *)
+Fixpoint table_text_cells (lp rp : nat -> nat) (j : nat) (cells : list str) : str :=
+  match cells with
+  | [] => []
+  | c :: cs => 124 :: pad_sp (lp j) (rp j) c ++ table_text_cells lp rp (S j) cs
+  end.
+
+Definition table_text_line (st : table_style) (i : nat) (name : str) (cells : list str) : str :=
+  pad_sp (ts_lpad st i 0) (ts_rpad st i 0) name
+  ++ table_text_cells (ts_lpad st i) (ts_rpad st i) 1 cells
+  ++ (if ts_bar st i then [124] else [])
+  ++ spaces (ts_trail st i) ++ comment_text (ts_comment st i).
+
+Fixpoint table_text_rows (st : table_style) (i : nat) (rows : list (str * list bool)) : list str :=
+  map filler_line (ts_fill st i)
+  ++ match rows with
+     | [] => []
+     | ob :: rest => table_text_line st i (fst ob) (map mark_X (snd ob)) :: table_text_rows st (S i) rest
+     end.
+
+(** the lines are joined by line feeds *)
+Definition spec_write_table (st : table_style) (objs props : list str) (bools : list (list bool)) : str :=
+  join [10] (map filler_line (ts_fill st 0)
+             ++ table_text_line st 0 [] props :: table_text_rows st 1 (combine objs bools)).
+
+(** comments are free of line feeds *)
+Definition table_comments_ok (st : table_style) : Prop :=
+  (forall i t, ts_comment st i = Some t -> no_newline t = true)
+  /\ (forall i n t, In (n, Some t) (ts_fill st i) -> no_newline t = true).
+
+(** The library's loader strips '|' from both ends of the cells part of a line ([flags.strip('|')]): with
+    two or more properties, an empty cell of width 0 at the start or at the end of a row is lost, and so is
+    an empty last cell that is not followed by the final '|' (see the boundary examples in
+    Properties/C12.v).  Hence the condition on the layout of such rows: a false first / last cell is at
+    least one space wide, and a row whose last cell is false has the final '|'.  Nothing is required of
+    the other cells, of rows whose first and last cells are true, or when there is a single property. *)
+Definition table_edges_ok (st : table_style) (bools : list (list bool)) : Prop :=
+  forall i r, nth_error bools i = Some r -> (2 <= length r)%nat ->
+    (hd true r = false -> (1 <= ts_lpad st (S i) 1 + ts_rpad st (S i) 1)%nat)
+    /\ (last r true = false ->
+        ts_bar st (S i) = true /\ (1 <= ts_lpad st (S i) (length r) + ts_rpad st (S i) (length r))%nat).
+
+(** ** cxt *)
+
+(** [cx_lpad i] / [cx_rpad i]: spaces before / after the content of the i-th non-empty line
+    (0: 'B', 1 and 2: the counts, 3...: object names, property names, rows);
+    [cx_trailer]: white-space-only lines after the last row, each given by its number of spaces
+    ([[0]] is a final line feed). *)
+Record cxt_style := {
+  cx_lpad : nat -> nat;
+  cx_rpad : nat -> nat;
+  cx_trailer : list nat }.
+
+Fixpoint pad_lines (lp rp : nat -> nat) (i : nat) (ls : list str) : list str :=
+  match ls with
+  | [] => []
+  | l :: r => pad_sp (lp i) (rp i) l :: pad_lines lp rp (S i) r
+  end.
+
+Definition cxt_mark (b : bool) : Z := if b then 88 else 46.
+
+Definition spec_write_cxt (st : cxt_style) (objs props : list str) (bools : list (list bool)) : str :=
+  join [10] (pad_lines (cx_lpad st) (cx_rpad st) 0 [[66]]
+             ++ [[]]
+             ++ pad_lines (cx_lpad st) (cx_rpad st) 1 [nat_to_str (length objs); nat_to_str (length props)]
+             ++ [[]]
+             ++ pad_lines (cx_lpad st) (cx_rpad st) 3 (objs ++ props ++ map (map cxt_mark) bools))
+  ++ flat_map (fun n => 10 :: spaces n) (cx_trailer st).
+
+(** ** csv (RFC 4180) *)
+
+Definition rfc_needs_quote (f : str) : bool :=
+  existsb (fun c => (c =? 44) || (c =? 34) || (c =? 13) || (c =? 10)) f.
+
+Definition rfc_quoted (f : str) : str :=
+  34 :: flat_map (fun c => if c =? 34 then [34; 34] else [c]) f ++ [34].
+
+(** a field is quoted when it has to be, or when the writer chooses to ([q]) *)
+Definition rfc_field (q : bool) (f : str) : str :=
+  if q || rfc_needs_quote f then rfc_quoted f else f.
+
+(** one record without its line end; [q j] says whether field [j] is quoted without need *)
+Definition rfc_record_text (q : nat -> bool) (fields : list str) : str :=
+  join [44] (map (fun jf => rfc_field (q (fst jf)) (snd jf)) (combine (seq 0 (length fields)) fields)).
+
+(** records [i], [i+1], ... separated by CRLF; the last record ends with CRLF iff [final] *)
+Fixpoint rfc_write (q : nat -> nat -> bool) (final : bool) (i : nat) (recs : list (list str)) : str :=
+  match recs with
+  | [] => []
+  | r :: rest =>
+      rfc_record_text (q i) r
+      ++ match rest with
+         | [] => if final then [13; 10] else []
+         | _ => [13; 10] ++ rfc_write q final (S i) rest
+         end
+  end.
+
+Definition csv_mark (as_int b : bool) : str :=
+  match as_int, b with
+  | false, false => []
+  | false, true => [88]
+  | true, false => [48]
+  | true, true => [49]
+  end.
+
+(** [q i j]: field [j] of record [i] (0: the header) is quoted even if it need not be;
+    [final]: the last record ends with CRLF (optional in RFC 4180);
+    [header0]: the first field of the header, which is not part of the context *)
+Definition spec_write_csv_gen (q : nat -> nat -> bool) (final : bool) (as_int : bool) (header0 : str)
+    (objs props : list str) (bools : list (list bool)) : str :=
+  rfc_write q final 0
+    ((header0 :: props) :: map (fun ob => fst ob :: map (csv_mark as_int) (snd ob)) (combine objs bools)).
+
+(** the two usual policies: quote every field, or only those that need it (CRLF after every record) *)
+Definition spec_write_csv (quote_all as_int : bool) (header0 : str)
+    (objs props : list str) (bools : list (list bool)) : str :=
+  spec_write_csv_gen (fun _ _ => quote_all) true as_int header0 objs props bools.
